@@ -270,6 +270,15 @@ func main() {
 		for i := 0; i < n; i++ {
 			run(genScenario(c.Rand.Fork(), i))
 		}
+		// concurrency: storms of identical add requests, then one remove
+		for i, st := range []Scenario{
+			{Name: "storm-same-form", Storm: &Storm{Forms: []string{"127.1.0.0/16"}, Goroutines: 8, Rounds: c.N(1500, 20000), Dest: "127.1.2.3"}},
+			{Name: "storm-mixed-forms", Storm: &Storm{Forms: families[0], Goroutines: 4, Rounds: c.N(500, 8000), Dest: "127.1.2.3"}},
+			{Name: "storm-with-config", ExitEnabled: true, Routes: []string{"127.2.0.0/15"}, Storm: &Storm{Forms: []string{"127.1.2.0/24", "127.1.2.77/24"}, Goroutines: 2, Rounds: c.N(500, 8000), Dest: "127.1.2.3"}},
+		} {
+			_ = i
+			run(st)
+		}
 	}
 	var sb strings.Builder
 	sb.WriteString("From Coq Require Import List NArith String.\nFrom MM Require Import Lib.Bytes Model.ExitPolicy.\nImport ListNotations.\nLocal Open Scope string_scope.\n")
